@@ -65,6 +65,9 @@ func implC19(line string) string {
 		return implTrace(limit, unhx(f[2]), unhx(strings.SplitN(f[3], "/", 2)[0]))
 	case "emsg":
 		return implEmsg(f[1:])
+	case "life":
+		limit, _ := strconv.Atoi(f[2])
+		return implLife(f[1], limit, unhx(f[3]), (len(f)-4)/2)
 	case "uthrow":
 		return implUThrow(f[1], f[2], f[3])
 	case "fspos":
@@ -180,6 +183,100 @@ func errTok(e *otto.Error) string {
 		fr = strings.Join(frames, ";")
 	}
 	return name + "|" + flag + "|" + fr
+}
+
+// framesOfStack canonicalises the frame lines of a stack text (the result of Error.String() or e.stack)
+func framesOfStack(s string) string {
+	lines := strings.Split(strings.TrimSuffix(s, "\n"), "\n")
+	var frames []string
+	for _, l := range lines[1:] {
+		if !strings.HasPrefix(l, "    at ") {
+			return "bad-frame-line:" + hx(l)
+		}
+		l = strings.TrimPrefix(l, "    at ")
+		callee, loc := "", l
+		if strings.HasSuffix(l, ")") {
+			if i := strings.Index(l, " ("); i >= 0 {
+				callee, loc = l[:i], l[i+2:len(l)-1]
+			}
+		}
+		frames = append(frames, callee+"@"+locTok(loc))
+	}
+	if len(frames) == 0 {
+		return "none"
+	}
+	return strings.Join(frames, ";")
+}
+
+// a later script that raises and catches an error of its own, deep enough to refill any shared scratch space
+const lifeNoise = "try { (function n1(){ (function n2(){ (function n3(){ (function n4(){ (function n5(){ (function n6(){ zzz; })(); })(); })(); })(); })(); })(); } catch (x9) {} " +
+	"try { null.p; } catch (x9) {} var junk9 = new Error('later');"
+
+// implLife: k errors with overlapping lifetimes on one runtime, every trace read after all of them exist.
+func implLife(mode string, limit int, src string, k int) string {
+	vm := otto.New()
+	vm.SetStackTraceLimit(limit)
+	var out []string
+	switch mode {
+	case "stack", "stack2", "stackcopy":
+		if _, err := vm.Run(src); err != nil {
+			return "run-error:" + hx(err.Error())
+		}
+		rd := vm
+		if mode == "stack2" {
+			if _, err := vm.Run(lifeNoise); err != nil {
+				return "noise-error:" + hx(err.Error())
+			}
+		}
+		if mode == "stackcopy" {
+			rd = vm.Copy()
+			if _, err := rd.Run(lifeNoise); err != nil {
+				return "noise-error:" + hx(err.Error())
+			}
+		}
+		for i := 0; i < k; i++ {
+			v, err := rd.Run(fmt.Sprintf("er%d.stack", i+1))
+			if err != nil {
+				return "read-error:" + hx(err.Error())
+			}
+			out = append(out, framesOfStack(v.String()))
+		}
+	case "finally":
+		_, err := vm.Run(src)
+		oe, ok := err.(*otto.Error)
+		if !ok {
+			return fmt.Sprintf("err-type:%T", err)
+		}
+		out = append(out, framesOfStack(oe.String()))
+	case "goerr":
+		var errs []*otto.Error
+		for i := 1; i <= k; i++ {
+			vm.Set("sel", i)
+			_, err := vm.Run(src)
+			oe, ok := err.(*otto.Error)
+			if !ok {
+				return fmt.Sprintf("err-type:%T", err)
+			}
+			errs = append(errs, oe)
+		}
+		vm.Set("sel", 0)
+		if _, err := vm.Run(lifeNoise); err != nil {
+			return "noise-error:" + hx(err.Error())
+		}
+		if _, err := vm.Call("idf9", nil); err == nil {
+			return "call-did-not-fail"
+		}
+		c := vm.Copy()
+		if _, err := c.Run("zzz"); err == nil {
+			return "copy-did-not-fail"
+		}
+		for _, e := range errs {
+			out = append(out, framesOfStack(e.String()))
+		}
+	default:
+		return "bad-op"
+	}
+	return strings.Join(out, "#")
 }
 
 func implTrace(limit int, fname, src string) string {
